@@ -37,8 +37,10 @@ ASSUMPTIONS = [
     "an index is its final key -> entry map (C08_history_final_map / _final_only); on-disk sides use entries whose "
     "observable form survives to_dict/from_dict (no mtime, no all-default Meta on an unhashed entry, no falsy "
     "HashInfo object) so that a cached and a re-read entry look the same; delete_node is used on leaves only",
-    "the default callback; `roots` other than [()] is modelled (diff_core_roots) and tied by correspondence + a "
-    "restricted flat-reference oracle for prefix-free roots, but the theorems are for roots = [()]",
+    "the default callback; `roots` other than [()]: modelled (diff_core_roots), tied by correspondence + the "
+    "restricted flat-reference oracle, proved for shallow=False (C08_roots_closed / _multi / _exact; overlapping "
+    "roots report a sub-tree once per covering root: C08_roots_once_refuted); roots with shallow=True: "
+    "correspondence only",
     "entry.key equals the key the entry is stored under",
     "Meta / HashInfo equality is attrs equality over the eq=True fields (generated meta_eqb / hashinfo_eqb) with "
     "values that are reflexive under == (no NaN mtime); meta_cmp_key is a pure function of the Meta",
@@ -47,7 +49,7 @@ ASSUMPTIONS = [
     "(equal directory hashes have hash-equal sub-tries: true when the hash is a collision-free digest of the children)",
     "the theorems about the descent are for shallow=False; shallow=True is covered by C08_refl, C08_range, the "
     "correspondence and the oracle (keys not below a hashed entry equal the flat reference) only",
-    "C08_swap is proved for _diff (any indexes); its composition with rename detection is checked by the oracle only",
+    "swap is proved for any options incl. shallow and renames (C08_swap_gen / C08_swap_renames_gen)",
     "set iteration order (old_items.keys() | new_items.keys()) is unobservable: outputs are compared as multisets",
     "the translator (translator/units.py units `types`, `idiff`) is trusted as far as the exhaustive decider "
     "correspondence (37 x 37 entries x 32 flag sets against the real functions) does not exercise it; the "
